@@ -132,6 +132,7 @@ def run_case(case):
         d = gen.snap_diff(before, after)
         removed = {os.path.join(root, p) for p in d["removed"]}
         res.mon("files_compared", len(before))
+        res.obs("clean", {"args": args, "answer": case["answer"], "removed": sorted(d["removed"]), "expected_removable": sorted(os.path.relpath(x, root) for x in removable) if confirmed else [], "os_remove_events": len([e for e in r.audit if e["ev"] == "os.remove"])})
         other = [p for p in d["added"] + d["modified"] + d["touched"] if p not in (".gwf/spec-hashes.json", ".gwf/spec-hashes.json.tmp")]
         removes = [e for e in r.audit if e["ev"] == "os.remove"]
         res.mon("remove_events_checked", len(removes) + 1)
